@@ -28,6 +28,11 @@ def main():
     if which in ("C", "D", "E", "F"):
         src = f"/tmp/seed2-out/{prop}"
     dst = f"/verif/seeded/{prop}-{which}"
+    if not prop.startswith("C"):  # round 3: <area> X1|X2|X3, judged by all 19 checks
+        src = f"/tmp/adv-out/{prop}"
+        dst = f"/verif/seeded/adv-{prop}-{which}"
+        if "--checks" not in sys.argv:
+            checks = [f"C{i:02d}" for i in range(1, 20)]
     if not os.path.exists(f"{src}/{which}.diff") and os.path.exists(f"{dst}/patch.diff"):
         src = None
     os.makedirs(dst, exist_ok=True)
